@@ -731,6 +731,16 @@ func (p *Parser) postNested(s saveState) {
 	p.quote, p.buriedHdocs = s.quote, s.buriedHdocs
 }
 
+// unburiedNewline reads the pending here-document bodies when the current
+// token is a newline that was lexed while those here-documents were still
+// buried by preNested, such as the newline directly following "]]" or the
+// last expression of a let clause.
+func (p *Parser) unburiedNewline() {
+	if p.tok == _Newl && p.quote != hdocWord && len(p.heredocs) > p.buriedHdocs {
+		p.doHeredocs()
+	}
+}
+
 func (p *Parser) unquotedWordBytes(w *Word) ([]byte, bool) {
 	buf := make([]byte, 0, 4)
 	didUnquote := false
@@ -2693,6 +2703,7 @@ func (p *Parser) testClause(s *Stmt) {
 		p.matchingErr(tc.Left, dblLeftBrack, dblRightBrack)
 	}
 	p.postNested(old)
+	p.unburiedNewline()
 	s.Cmd = tc
 }
 
@@ -2905,6 +2916,7 @@ func (p *Parser) letClause(s *Stmt) {
 		p.followErrExp(lc.Let, "let")
 	}
 	p.postNested(old)
+	p.unburiedNewline()
 	s.Cmd = lc
 }
 
